@@ -9,16 +9,26 @@ open SpyneModel
 theorem qname_inj_right (ns a b : Text) (h : qname ns a = qname ns b) : a = b := by
   simpa [qname] using h
 
+/-- the service methods among the descriptors (member methods are not subject to `check_unique_method_keys`) -/
+def svcOnly (ms : List Method) : List Method := ms.filter (fun m => !m.member)
+
 theorem checkUnique_ok_iff (seen : List Text) (ms : List Method) :
-    checkUnique seen ms = .ok () ↔ (ms.map internalKey).Nodup ∧ ∀ m ∈ ms, internalKey m ∉ seen := by
+    checkUnique seen ms = .ok () ↔
+      ((svcOnly ms).map internalKey).Nodup ∧ ∀ m ∈ svcOnly ms, internalKey m ∉ seen := by
   induction ms generalizing seen with
-  | nil => simp [checkUnique]
+  | nil => simp [checkUnique, svcOnly]
   | cons m ms ih =>
     simp only [checkUnique]
-    by_cases h : internalKey m ∈ seen
-    · simp [h]
-    · simp only [h, if_false, ih, List.map_cons, List.nodup_cons, List.mem_cons, List.mem_map]
-      grind
+    by_cases hm : m.member = true
+    · have : svcOnly (m :: ms) = svcOnly ms := by simp [svcOnly, hm]
+      simp only [hm, if_true, this, ih]
+    · have hm' : m.member = false := by simpa using hm
+      have : svcOnly (m :: ms) = m :: svcOnly ms := by simp [svcOnly, hm']
+      rw [this]
+      by_cases h : internalKey m ∈ seen
+      · simp [h, hm']
+      · simp only [hm', Bool.false_eq_true, h, if_false, ih, List.map_cons, List.nodup_cons, List.mem_cons, List.mem_map]
+        grind
 
 theorem checkUnique_err (seen : List Text) (ms : List Method) (e : BuildErr)
     (h : checkUnique seen ms = .error e) : e = .methodAlreadyExists := by
@@ -27,14 +37,36 @@ theorem checkUnique_err (seen : List Text) (ms : List Method) (e : BuildErr)
   | cons m ms ih =>
     simp only [checkUnique] at h
     split at h
-    · cases h; rfl
     · exact ih _ h
-
+    · split at h
+      · cases h; rfl
+      · exact ih _ h
 
 theorem allClassKeys_cons (tns : Text) (m : Method) (ms : List Method) :
     allClassKeys tns (m :: ms) = (if m.aux then [] else classKeys tns m) ++ allClassKeys tns ms := by
   unfold allClassKeys
   by_cases h : m.aux <;> simp [h]
+
+theorem addKeys_iff (seen ks : List Text) :
+    (∃ s, addKeys seen ks = some s) ↔ ks.Nodup ∧ ∀ k ∈ ks, k ∉ seen := by
+  induction ks generalizing seen with
+  | nil => simp [addKeys]
+  | cons k ks ih =>
+    simp only [addKeys]
+    by_cases h : k ∈ seen
+    · simp [h]
+    · simp only [h, if_false, ih, List.nodup_cons, List.mem_cons]
+      grind
+
+theorem addKeys_mem (seen ks s : List Text) (h : addKeys seen ks = some s) :
+    ∀ x, x ∈ s ↔ x ∈ ks ∨ x ∈ seen := by
+  induction ks generalizing seen with
+  | nil => simp [addKeys] at h; subst h; simp
+  | cons k ks ih =>
+    simp only [addKeys] at h
+    split at h
+    · cases h
+    · intro x; rw [ih _ h x]; simp only [List.mem_cons]; grind
 
 theorem addClasses_ok_iff (tns : Text) (seen : List Text) (ms : List Method) :
     (∃ s, addClasses tns seen ms = .ok s) ↔
@@ -47,15 +79,16 @@ theorem addClasses_ok_iff (tns : Text) (seen : List Text) (ms : List Method) :
     by_cases ha : m.aux
     · simp [ha, ih]
     · simp only [ha, Bool.false_eq_true, if_false]
-      by_cases h1 : qname (m.inNs.getD tns) m.name ∈ seen
-      · simp [h1, classKeys]
-      · by_cases h2 : qname (m.outNs.getD tns) m.outName ∈ qname (m.inNs.getD tns) m.name :: seen
-        · simp only [h1, h2, if_false, if_true, classKeys]
-          simp at h2 ⊢
-          grind
-        · simp only [h1, h2, if_false, ih, classKeys]
-          simp only [List.nodup_append, List.nodup_cons, List.mem_cons, List.mem_append] at *
-          grind
+      cases hk : addKeys seen (classKeys tns m) with
+      | none =>
+        have := mt (addKeys_iff seen (classKeys tns m)).mpr (by simp [hk])
+        simp only [reduceCtorEq, exists_false, false_iff, List.nodup_append, List.mem_append]
+        grind
+      | some s' =>
+        have h1 := (addKeys_iff seen (classKeys tns m)).mp ⟨s', hk⟩
+        have h2 := addKeys_mem seen (classKeys tns m) s' hk
+        simp only [ih, List.nodup_append, List.mem_append]
+        grind
 
 theorem addClasses_err (tns : Text) (seen : List Text) (ms : List Method) (e : BuildErr)
     (h : addClasses tns seen ms = .error e) : e = .valueError := by
@@ -67,9 +100,7 @@ theorem addClasses_err (tns : Text) (seen : List Text) (ms : List Method) (e : B
     · exact ih _ h
     · split at h
       · cases h; rfl
-      · split at h
-        · cases h; rfl
-        · exact ih _ h
+      · exact ih _ h
 
 theorem rget_rset (r : Routes) (k k' : Text) (v : List Method) :
     rget (rset r k v) k' = if k = k' then v else rget r k' := by
@@ -347,7 +378,7 @@ theorem clash_symm {a b : Method} (h : ¬ Clash a b) : ¬ Clash b a :=
 
 theorem valid_perm {tns : Text} {ms ms' : List Method} (hp : ms.Perm ms') (v : Valid tns ms) :
     Valid tns ms' where
-  ikeys := (hp.map internalKey).nodup_iff.mp v.ikeys
+  ikeys := ((hp.filter _).map internalKey).nodup_iff.mp v.ikeys
   classes := by
     have : (allClassKeys tns ms).Perm (allClassKeys tns ms') := by
       unfold allClassKeys
@@ -603,16 +634,17 @@ theorem splitBrace_qname (ns l : Text) (h : '}' ∉ ns) : splitBrace (qname ns l
     construction fail, the other order is accepted -/
 theorem aux_first_witness_gen (F : Facts11) (h : F.auxFirst = .typeError) (a x : Method)
     (ha : a.aux = false) (hx : x.aux = true) (hn : x.name = a.name) (hk : ifaceKey a ≠ ifaceKey x)
-    (hi : internalKey a ≠ internalKey x) (hc : qname (a.inNs.getD []) a.name ≠ qname (a.outNs.getD []) a.outName) :
+    (ham : a.member = false) (hxm : x.member = false)
+    (hi : internalKey a ≠ internalKey x) (hc : (classKeys [] a).Nodup) :
     build F [] [x, a] = .error .typeError ∧ ∃ r, build F [] [a, x] = .ok r := by
   have hk' : ifaceKey x ≠ ifaceKey a := fun e => hk e.symm
   have hi' : internalKey x ≠ internalKey a := fun e => hi e.symm
-  have hc' : qname (a.outNs.getD []) a.outName ≠ qname (a.inNs.getD []) a.name := fun e => hc e.symm
+  obtain ⟨s, hs⟩ := (addKeys_iff [] (classKeys [] a)).mpr ⟨hc, by simp⟩
   constructor
   · simp [build, checkUnique, addClasses, processAll, processMethod, rget, rset, routeKey, ha, hx, hn, h,
-      hk, hi, hc']
+      hk, hi, ham, hxm, hs]
   · simp [build, checkUnique, addClasses, processAll, processMethod, rget, rset, routeKey, ha, hx, hn,
-      hk', hi', hc']
+      hk', hi', ham, hxm, hs]
 
 /-- with the silent skip, of two methods with one interface key the first listed wins -/
 theorem iface_skip_witness_gen (F : Facts11) (h : F.ifaceDup = .silentSkip) (a b : Method)
